@@ -309,12 +309,43 @@ static void check_foreach(int t, int rev, int stop_at, int stop_val)
 
 static int clr_id[MAXN + 8], nclr, pre_ids[MAXN];
 
+/* a container of containers: the clear callback of the outer tree clears two small independent trees (other node
+ * members, another callback, another private pointer) before it deals with its own element */
+static struct telem nc_el[6]; static int nc_calls, nc_bad; static char nc_token;
+static void nc_cb(void *obj, void *priv)
+{
+    struct telem *e = obj;
+    if (priv != (void *)&nc_token || e < nc_el || e >= nc_el + 6 || e->mark != 77) nc_bad++;
+    else e->mark = 78;
+    nc_calls++;
+}
+static void nested_clear(void)
+{
+    static struct cstl_bintree nbt; static struct cstl_rbtree nrb;
+    int q, saved = g_inlib;
+    nc_calls = nc_bad = 0;
+    g_inlib = 1;
+    cstl_bintree_init(&nbt, cmp_plain, NULL, offsetof(struct telem, bn2));
+    cstl_rbtree_init(&nrb, cmp_plain, NULL, offsetof(struct telem, rn2));
+    for (q = 0; q < 6; q++) {
+        nc_el[q].magic = MAGIC; nc_el[q].tail = ~MAGIC; nc_el[q].key = (q * 5) % 7; nc_el[q].id = -4; nc_el[q].tree = -3; nc_el[q].mark = 77;
+        if (q < 3) cstl_bintree_insert(&nbt, &nc_el[q], NULL); else cstl_rbtree_insert(&nrb, &nc_el[q], NULL);
+    }
+    cstl_bintree_clear(&nbt, nc_cb, &nc_token);
+    cstl_rbtree_clear(&nrb, nc_cb, &nc_token);
+    g_inlib = saved;
+    if (nc_calls != 6 || nc_bad || cstl_bintree_size(&nbt) != 0 || cstl_rbtree_size(&nrb) != 0)
+        sim_violation("C15/nested_clear/clear/tree-of-trees", "two independent 3-element trees cleared from inside a clear callback: %d callbacks (%d with a wrong element or private pointer)", nc_calls, nc_bad);
+    PROBE("clear_callback_clears_other_trees");
+}
+
 static void clear_cb(void *obj, void *priv)
 {
     CB_ENTER();
     struct telem *e = obj;
     int id = -1;
-    (void)priv;
+    if (reentrant) nested_clear();
+    if (priv != (void *)&clr_id[0]) { nclr = -1000000; }       /* the outer callback's own private pointer must still arrive */
     if (simheap_is_live(e) && e->magic == MAGIC && e->tail == ~MAGIC) id = e->id;
     if (nclr < MAXN + 8) clr_id[nclr] = id;
     nclr++;
@@ -584,8 +615,8 @@ static void t_exec(const plan_t *p)
             for (i = 0; i < npre; i++) pre_ids[i] = m->e[i]->id;
             nclr = 0;
             m->since_clear = 0; g_cur_prop = "C15"; g_cur_ctx = ctx_of(t);
-            if (is_rb(t)) TRY(cstl_rbtree_clear(&rb[t - 2], clear_cb, NULL));
-            else TRY(cstl_bintree_clear(BT(t), clear_cb, NULL));
+            if (is_rb(t)) TRY(cstl_rbtree_clear(&rb[t - 2], clear_cb, &clr_id[0]));
+            else TRY(cstl_bintree_clear(BT(t), clear_cb, &clr_id[0]));
             m->n = 0;
             if (g_aborted) VIOL(t, "abort", "clear aborted");
             if (nclr != npre) VIOL(t, "clear_count", "tree %d: clear called back %d times for %d elements", t, nclr, npre);
